@@ -23,7 +23,7 @@ use rbgp_verif::common::*;
 use rustybgp_packet::bgp::{Family, Ipv4Net, Ipv6Net, Nexthop};
 use rustybgp_packet::{Attribute, Nlri};
 use rustybgp_table as table;
-use std::collections::{BTreeMap, BTreeSet, HashSet};
+use std::collections::{BTreeMap, BTreeSet, HashMap, HashSet};
 use std::net::{IpAddr, Ipv4Addr, Ipv6Addr};
 use std::sync::Arc;
 use std::sync::atomic::AtomicU64;
@@ -32,7 +32,9 @@ use table::{InsertResult, NlriChange, Path, PeerRole, Source, Table};
 const FAM: [Family; 2] = [Family::IPV4, Family::IPV6];
 const FAM_NAME: [&str; 2] = ["v4", "v6"];
 const NPEER: usize = 3;
-const MAX_PFX: usize = 6;
+const MAX_PFX: usize = 400;
+/// prefix index inside a family's universe
+type Px = u16;
 /// per-family prefix limit of peer 2 (the peer without GR)
 const PEER2_LIMIT: u32 = 3;
 const NO_LLGR: u32 = 0xffff_0007;
@@ -49,6 +51,7 @@ struct Env {
     attrs: Vec<Arc<Vec<Attribute>>>,
     nhs: [Nexthop; 2],
     pfx: [Vec<Nlri>; 2],
+    pfx_index: [HashMap<Nlri, Px>; 2],
     addrs: [IpAddr; NPEER],
     roles: [PeerRole; NPEER],
     asns: [u32; NPEER],
@@ -85,16 +88,18 @@ impl Env {
         ];
         let mut p4 = Vec::new();
         let mut p6 = Vec::new();
-        for i in 0..MAX_PFX as u8 {
+        for i in 0..MAX_PFX as u16 {
             p4.push(Nlri::V4(Ipv4Net {
-                addr: Ipv4Addr::new(10, i + 1, 0, 0),
-                mask: 16,
+                addr: Ipv4Addr::new(10, (i >> 8) as u8 + 1, (i & 255) as u8, 0),
+                mask: 24,
             }));
             p6.push(Nlri::V6(Ipv6Net {
-                addr: Ipv6Addr::new(0x2001, 0xdb8, i as u16 + 1, 0, 0, 0, 0, 0),
+                addr: Ipv6Addr::new(0x2001, 0xdb8, i + 1, 0, 0, 0, 0, 0),
                 mask: 48,
             }));
         }
+        let index = |v: &Vec<Nlri>| v.iter().enumerate().map(|(i, n)| (n.clone(), i as Px)).collect::<HashMap<Nlri, Px>>();
+        let pfx_index = [index(&p4), index(&p6)];
         Env {
             attrs,
             nhs: [
@@ -102,6 +107,7 @@ impl Env {
                 Nexthop::V6(Ipv6Addr::new(0x2001, 0xdb8, 0xffff, 0, 0, 0, 0, 2)),
             ],
             pfx: [p4, p6],
+            pfx_index,
             addrs: [
                 IpAddr::V4(Ipv4Addr::new(198, 51, 100, 1)),
                 IpAddr::V4(Ipv4Addr::new(198, 51, 100, 2)),
@@ -150,9 +156,16 @@ enum Op {
     /// session ended; graceful = GR / LLGR apply to this kind of disconnect
     Down { peer: u8, graceful: bool },
     /// UPDATE for one (prefix, remote path id); filtered = import policy rejected it
-    Insert { peer: u8, fam: u8, pfx: u8, pid: u8, attr: u8, fresh: bool, nh: u8, filtered: bool },
+    Insert { peer: u8, fam: u8, pfx: Px, pid: u8, attr: u8, fresh: bool, nh: u8, filtered: bool },
     /// WITHDRAW
-    Remove { peer: u8, fam: u8, pfx: u8, pid: u8 },
+    Remove { peer: u8, fam: u8, pfx: Px, pid: u8 },
+    /// one UPDATE per prefix lo..lo+n (path id 0): fills whole blocks of destination ids
+    BlockInsert { peer: u8, fam: u8, lo: Px, n: Px, attr: u8, nh: u8, filtered: bool },
+    /// one WITHDRAW per prefix lo..lo+n (path id 0)
+    BlockRemove { peer: u8, fam: u8, lo: Px, n: Px },
+    /// withdraw (through the sessions that are up) every path of every prefix whose destination id
+    /// lies in the 64-id block `word`; keep: 0 = none, 1 = the lowest id, 2 = the highest id of the block
+    IdBlockRemove { fam: u8, word: u8, keep: u8 },
     GrTimer { peer: u8 },
     LlgrTimer { peer: u8, fam: u8 },
     Eor { peer: u8, fam: u8 },
@@ -171,6 +184,9 @@ impl Op {
                 format!("I{}.{}.{}.{}.{}.{}.{}.{}", peer, fam, pfx, pid, attr, b(fresh), nh, b(filtered))
             }
             Op::Remove { peer, fam, pfx, pid } => format!("R{}.{}.{}.{}", peer, fam, pfx, pid),
+            Op::BlockInsert { peer, fam, lo, n, attr, nh, filtered } => format!("B{}.{}.{}.{}.{}.{}.{}", peer, fam, lo, n, attr, nh, b(filtered)),
+            Op::BlockRemove { peer, fam, lo, n } => format!("W{}.{}.{}.{}", peer, fam, lo, n),
+            Op::IdBlockRemove { fam, word, keep } => format!("X{}.{}.{}", fam, word, keep),
             Op::GrTimer { peer } => format!("G{}", peer),
             Op::LlgrTimer { peer, fam } => format!("L{}.{}", peer, fam),
             Op::Eor { peer, fam } => format!("E{}.{}", peer, fam),
@@ -181,26 +197,30 @@ impl Op {
     }
     fn dec(s: &str) -> Option<Op> {
         let (tag, rest) = s.split_at(1);
-        let v: Vec<u8> = if rest.is_empty() {
+        let v: Vec<u16> = if rest.is_empty() {
             vec![]
         } else {
-            rest.split('.').map(|x| x.parse::<u8>().ok()).collect::<Option<Vec<u8>>>()?
+            rest.split('.').map(|x| x.parse::<u16>().ok()).collect::<Option<Vec<u16>>>()?
         };
-        let g = |i: usize| v.get(i).copied();
+        let g = |i: usize| v.get(i).and_then(|x| u8::try_from(*x).ok());
+        let w = |i: usize| v.get(i).copied();
         Some(match tag {
             "U" => Op::Up { peer: g(0)?, gr: g(1)?, llgr: g(2)? },
             "D" => Op::Down { peer: g(0)?, graceful: g(1)? != 0 },
             "I" => Op::Insert {
                 peer: g(0)?,
                 fam: g(1)?,
-                pfx: g(2)?,
+                pfx: w(2)?,
                 pid: g(3)?,
                 attr: g(4)?,
                 fresh: g(5)? != 0,
                 nh: g(6)?,
                 filtered: g(7)? != 0,
             },
-            "R" => Op::Remove { peer: g(0)?, fam: g(1)?, pfx: g(2)?, pid: g(3)? },
+            "R" => Op::Remove { peer: g(0)?, fam: g(1)?, pfx: w(2)?, pid: g(3)? },
+            "B" => Op::BlockInsert { peer: g(0)?, fam: g(1)?, lo: w(2)?, n: w(3)?, attr: g(4)?, nh: g(5)?, filtered: g(6)? != 0 },
+            "W" => Op::BlockRemove { peer: g(0)?, fam: g(1)?, lo: w(2)?, n: w(3)? },
+            "X" => Op::IdBlockRemove { fam: g(0)?, word: g(1)?, keep: g(2)? },
             "G" => Op::GrTimer { peer: g(0)? },
             "L" => Op::LlgrTimer { peer: g(0)?, fam: g(1)? },
             "E" => Op::Eor { peer: g(0)?, fam: g(1)? },
@@ -232,6 +252,29 @@ impl Op {
                 if filtered { " FILTERED by import policy" } else { "" }
             ),
             Op::Remove { peer, fam, pfx, pid } => format!("withdraw peer{} {} P{} path-id {}", peer, FAM_NAME[fam as usize & 1], pfx, pid),
+            Op::BlockInsert { peer, fam, lo, n, attr, nh, filtered } => format!(
+                "update peer{} {} P{}..P{} ({} prefixes, one call each) path-id 0 attr A{} (shared Arc) nh_{}{}",
+                peer,
+                FAM_NAME[fam as usize & 1],
+                lo,
+                lo + n.max(1) - 1,
+                n,
+                attr,
+                if nh == 0 { "a" } else { "b" },
+                if filtered { " FILTERED by import policy" } else { "" }
+            ),
+            Op::BlockRemove { peer, fam, lo, n } => format!("withdraw peer{} {} P{}..P{} path-id 0", peer, FAM_NAME[fam as usize & 1], lo, lo + n.max(1) - 1),
+            Op::IdBlockRemove { fam, word, keep } => format!(
+                "withdraw every path (of peers whose session is up) of the {} prefixes holding dest ids {}..{}{}",
+                FAM_NAME[fam as usize & 1],
+                word as u32 * 64,
+                word as u32 * 64 + 63,
+                match keep {
+                    1 => " except the lowest id",
+                    2 => " except the highest id",
+                    _ => "",
+                }
+            ),
             Op::GrTimer { peer } => format!("GR restart timer of peer{} expires", peer),
             Op::LlgrTimer { peer, fam } => format!("LLGR stale timer of peer{} {} expires", peer, FAM_NAME[fam as usize & 1]),
             Op::Eor { peer, fam } => format!("End-of-RIB from peer{} {}", peer, FAM_NAME[fam as usize & 1]),
@@ -359,14 +402,14 @@ fn same_content(a: &Pid, b: &Pid, with_lpid: bool) -> bool {
 #[derive(Default)]
 struct BestC {
     sent: [BTreeSet<u32>; 2],
-    view: [BTreeMap<u8, Pid>; 2],
+    view: [BTreeMap<Px, Pid>; 2],
 }
 
 /// Add-path consumer: `process_nlri_change` with `effective_max == n > 1`.
 struct ApC {
     n: usize,
     sent: [BTreeMap<u32, BTreeSet<u32>>; 2],
-    view: [BTreeMap<u8, BTreeMap<u32, Pid>>; 2],
+    view: [BTreeMap<Px, BTreeMap<u32, Pid>>; 2],
 }
 
 impl ApC {
@@ -390,7 +433,7 @@ struct FeedStats {
 }
 
 impl BestC {
-    fn feed(&mut self, fi: usize, px: u8, ch: &NlriChange, st: &mut FeedStats) {
+    fn feed(&mut self, fi: usize, px: Px, ch: &NlriChange, st: &mut FeedStats) {
         if !ch.best_changed {
             st.best_skipped += 1;
             return;
@@ -411,7 +454,7 @@ impl BestC {
 }
 
 impl ApC {
-    fn feed(&mut self, fi: usize, px: u8, ch: &NlriChange, st: &mut FeedStats) {
+    fn feed(&mut self, fi: usize, px: Px, ch: &NlriChange, st: &mut FeedStats) {
         if !ch.any_changed {
             st.ap_skipped += 1;
             return;
@@ -489,7 +532,7 @@ struct GtDest {
     id: u32,
     paths: Vec<Pid>,
 }
-type Gt = BTreeMap<u8, GtDest>;
+type Gt = BTreeMap<Px, GtDest>;
 
 struct Failure {
     clause: &'static str,
@@ -501,16 +544,22 @@ struct Failure {
 
 struct Run<'a> {
     env: &'a Env,
-    npfx: usize,
+    /// universe size per family
+    npfx: [usize; 2],
+    /// 0 = small-universe histories (peer2 is prefix-limited), 1 = allocator shape (large universe, no prefix limit)
+    mode: u8,
     shard: u32,
     t: Table,
     peers: Vec<PeerSt>,
     invalid: HashSet<IpAddr>,
     deferring: [bool; 2],
-    shadow: [BTreeMap<u8, Vec<Sh>>; 2],
+    shadow: [BTreeMap<Px, Vec<Sh>>; 2],
     best: BestC,
     aps: Vec<ApC>,
-    known_id: [BTreeMap<u8, u32>; 2],
+    known_id: [BTreeMap<Px, u32>; 2],
+    /// which prefix an id was last seen on (to count re-issue of a freed id)
+    id_owner: [BTreeMap<u32, Px>; 2],
+    max_live: u64,
     gt_prev: [Gt; 2],
     /// every Source Arc of the run: (arc, peer, session no, family)
     registry: Vec<(Arc<Source>, u8, u32, usize)>,
@@ -530,10 +579,11 @@ fn count(c: &mut BTreeMap<String, u64>, k: &str) {
 }
 
 impl<'a> Run<'a> {
-    fn new(env: &'a Env, npfx: usize, shard: u32, trace: bool) -> Run<'a> {
+    fn new(env: &'a Env, npfx: [usize; 2], mode: u8, shard: u32, trace: bool) -> Run<'a> {
         Run {
             env,
             npfx,
+            mode,
             shard,
             t: Table::new(shard),
             peers: (0..NPEER)
@@ -545,11 +595,13 @@ impl<'a> Run<'a> {
             best: BestC::default(),
             aps: vec![ApC::new(2), ApC::new(3), ApC::new(usize::MAX)],
             known_id: Default::default(),
+            id_owner: Default::default(),
+            max_live: 0,
             gt_prev: Default::default(),
             registry: Vec::new(),
             steps: 0,
             op_index: 0,
-            hist_hash: fnv64(&[npfx as u8, shard as u8]),
+            hist_hash: fnv64(&[(npfx[0] & 255) as u8, (npfx[0] >> 8) as u8, (npfx[1] & 255) as u8, (npfx[1] >> 8) as u8, mode, shard as u8]),
             nontrivial: Vec::new(),
             counters: BTreeMap::new(),
             fstats: FeedStats::default(),
@@ -571,8 +623,8 @@ impl<'a> Run<'a> {
         self.deferring[0] || self.deferring[1]
     }
 
-    fn pfx_of(&self, fi: usize, net: &Nlri) -> Option<u8> {
-        self.env.pfx[fi].iter().position(|n| n == net).map(|i| i as u8)
+    fn pfx_of(&self, fi: usize, net: &Nlri) -> Option<Px> {
+        self.env.pfx_index[fi].get(net).copied().filter(|p| (*p as usize) < self.npfx[fi])
     }
 
     fn describe_pid(&self, p: &Pid) -> String {
@@ -696,7 +748,7 @@ impl<'a> Run<'a> {
         let mut detail: Vec<(String, Json)> = Vec::new();
 
         // per-notification clauses: id, phantom
-        let mut notif_px: Vec<(usize, u8)> = Vec::new();
+        let mut notif_px: Vec<(usize, Px)> = Vec::new();
         for ch in &changes {
             let Some(fi) = fam_idx(ch.family) else {
                 self.harness_error = Some("notification for a family outside the universe".into());
@@ -708,6 +760,12 @@ impl<'a> Run<'a> {
             };
             notif_px.push((fi, px));
             self.cnt(&format!("notif:{}", kind));
+            if (ch.dest_id & 0x00ff_ffff) >= 64 {
+                self.cnt("notif:dest_id>=64");
+            }
+            if (ch.dest_id & 0x00ff_ffff) >= 128 {
+                self.cnt("notif:dest_id>=128");
+            }
             if !ch.best_changed {
                 self.cnt("notif:best_changed=false");
             }
@@ -791,7 +849,7 @@ impl<'a> Run<'a> {
             df_v.push(("C06/deferral/insert-not-silent".into(), "insert during deferral returned a change".into()));
         }
         if let Some(fi) = end_deferral {
-            let mut seen: BTreeMap<u8, usize> = BTreeMap::new();
+            let mut seen: BTreeMap<Px, usize> = BTreeMap::new();
             for (f2, px) in &notif_px {
                 if *f2 == fi {
                     *seen.entry(*px).or_insert(0) += 1;
@@ -834,7 +892,7 @@ impl<'a> Run<'a> {
             let mut diffs: Vec<String> = Vec::new();
             let mut session_only = false;
             let mut llgr_only = false;
-            for px in 0..self.npfx as u8 {
+            for px in 0..self.npfx[fi] as Px {
                 let have = self.best.view[fi].get(&px);
                 let want = gt_all[fi].get(&px).and_then(|d| d.paths.first());
                 match (have, want) {
@@ -876,7 +934,7 @@ impl<'a> Run<'a> {
                 let g = if n == 2 { &gt2[fi] } else if n == 3 { &gt3[fi] } else { &gt_all[fi] };
                 let mut diffs: Vec<String> = Vec::new();
                 let mut session_only = false;
-                for px in 0..self.npfx as u8 {
+                for px in 0..self.npfx[fi] as Px {
                     let empty = BTreeMap::new();
                     let have = self.aps[ai].view[fi].get(&px).unwrap_or(&empty);
                     let want: BTreeMap<u32, &Pid> = g.get(&px).map(|d| d.paths.iter().map(|p| (p.lpid, p)).collect()).unwrap_or_default();
@@ -918,26 +976,52 @@ impl<'a> Run<'a> {
             }
         }
 
-        // id clause over live prefixes
+        // id clause over ALL live prefixes (id <-> prefix bijection)
         for fi in 0..2 {
-            for px in 0..self.npfx as u8 {
-                let live = self.shadow[fi].get(&px).is_some_and(|v| !v.is_empty());
-                if !live {
-                    self.known_id[fi].remove(&px);
-                }
+            let words_before: BTreeSet<u32> = self.known_id[fi].values().map(|id| (id & 0x00ff_ffff) / 64).collect();
+            let dead: Vec<Px> = self.known_id[fi].keys().filter(|px| !self.shadow[fi].contains_key(px)).copied().collect();
+            for px in dead {
+                self.known_id[fi].remove(&px);
             }
             for (px, d) in gt_all[fi].iter() {
-                if let Some(old) = self.known_id[fi].get(px) {
-                    if *old != d.id {
-                        id_v.push((
-                            "C06/id-unique/changed-while-live".into(),
-                            format!("P{} changed its dest_id from {:#x} to {:#x} while it never was without paths", px, old, d.id),
-                        ));
+                match self.known_id[fi].get(px) {
+                    Some(old) => {
+                        if *old != d.id {
+                            id_v.push((
+                                "C06/id-unique/changed-while-live".into(),
+                                format!("P{} changed its dest_id from {:#x} to {:#x} while it never was without paths", px, old, d.id),
+                            ));
+                        }
+                    }
+                    None => {
+                        // first sighting of this prefix since it last was without paths
+                        if self.id_owner[fi].get(&d.id).is_some_and(|o| o != px) {
+                            count(&mut self.counters, "id:reissued-to-another-prefix");
+                        }
+                        self.id_owner[fi].insert(d.id, *px);
+                        let local = d.id & 0x00ff_ffff;
+                        if local >= 64 {
+                            count(&mut self.counters, "id:assigned>=64");
+                        }
+                        if local >= 128 {
+                            count(&mut self.counters, "id:assigned>=128");
+                        }
                     }
                 }
                 self.known_id[fi].insert(*px, d.id);
             }
-            let mut by_id: BTreeMap<u32, Vec<u8>> = BTreeMap::new();
+            let words_after: BTreeSet<u32> = self.known_id[fi].values().map(|id| (id & 0x00ff_ffff) / 64).collect();
+            for w in words_before.difference(&words_after) {
+                // a whole 64-id block was released; below a block that is still in use this is
+                // where a bitmap allocator must not lose the higher words
+                if words_after.iter().any(|x| x > w) {
+                    count(&mut self.counters, "alloc:whole-block-released-below-live-block");
+                } else {
+                    count(&mut self.counters, "alloc:whole-block-released-at-tail");
+                }
+            }
+            self.max_live = self.max_live.max(self.shadow[fi].len() as u64);
+            let mut by_id: BTreeMap<u32, Vec<Px>> = BTreeMap::new();
             for (px, id) in self.known_id[fi].iter() {
                 by_id.entry(*id).or_default().push(*px);
             }
@@ -955,7 +1039,7 @@ impl<'a> Run<'a> {
 
         // non-trivial case = the call produced at least one notification, or was suppressed by deferral
         if !changes.is_empty() || kind == "insert-deferred" {
-            self.nontrivial.push(fnv64(&[&self.hist_hash.to_le_bytes()[..], kind.as_bytes()].concat()));
+            self.nontrivial.push(fnv64(&[&self.hist_hash.to_le_bytes()[..], &self.steps.to_le_bytes()[..], kind.as_bytes()].concat()));
         }
 
         // priority: one clause per failing step, so one root cause maps to few signatures
@@ -990,7 +1074,7 @@ impl<'a> Run<'a> {
 
     // -------------------------------------------------------------- Table calls
 
-    fn t_insert(&mut self, peer: u8, fi: usize, px: u8, rpid: u8, attr_i: u8, fresh: bool, nh_i: u8, filtered: bool) -> bool {
+    fn t_insert(&mut self, peer: u8, fi: usize, px: Px, rpid: u8, attr_i: u8, fresh: bool, nh_i: u8, filtered: bool) -> bool {
         // returns true when the prefix limit was exceeded
         if self.stopped() {
             return false;
@@ -1002,7 +1086,7 @@ impl<'a> Run<'a> {
         let attr = if fresh { Arc::new((*env.attrs[attr_i as usize]).clone()) } else { env.attrs[attr_i as usize].clone() };
         let nh = env.nhs[nh_i as usize];
         let nh_invalid = self.invalid.contains(&nh.addr());
-        let limit = if peer == 2 { Some((PEER2_LIMIT, &counter)) } else { None };
+        let limit = if peer == 2 && self.mode == 0 { Some((PEER2_LIMIT, &counter)) } else { None };
         let net = env.pfx[fi][px as usize].clone();
         let existing = self.shadow[fi].get(&px).and_then(|v| v.iter().position(|s| s.peer == peer && s.rpid == rpid));
         let replaces_other_session = existing.is_some_and(|i| !Arc::ptr_eq(&self.shadow[fi][&px][i].src, &src));
@@ -1066,7 +1150,7 @@ impl<'a> Run<'a> {
         }
     }
 
-    fn t_remove(&mut self, peer: u8, fi: usize, px: u8, rpid: u8) {
+    fn t_remove(&mut self, peer: u8, fi: usize, px: Px, rpid: u8) {
         if self.stopped() {
             return;
         }
@@ -1322,6 +1406,65 @@ impl<'a> Run<'a> {
                 }
             }
             Op::Remove { peer, fam, pfx, pid } => self.t_remove(peer, fam as usize, pfx, pid),
+            Op::BlockInsert { peer, fam, lo, n, attr, nh, filtered } => {
+                self.cnt("block:insert");
+                for px in lo..lo + n {
+                    if self.stopped() {
+                        break;
+                    }
+                    if self.t_insert(peer, fam as usize, px, 0, attr, false, nh, filtered) {
+                        self.down(peer, false);
+                        break;
+                    }
+                }
+            }
+            Op::BlockRemove { peer, fam, lo, n } => {
+                self.cnt("block:remove");
+                for px in lo..lo + n {
+                    if self.stopped() {
+                        break;
+                    }
+                    // only prefixes this peer has under path id 0 (a WITHDRAW of nothing is a no-op call)
+                    let has = self.shadow[fam as usize].get(&px).is_some_and(|v| v.iter().any(|s| s.peer == peer && s.rpid == 0));
+                    if has {
+                        self.t_remove(peer, fam as usize, px, 0);
+                    }
+                }
+            }
+            Op::IdBlockRemove { fam, word, keep } => {
+                let fi = fam as usize;
+                let mut victims: Vec<(u32, Px)> = self.known_id[fi]
+                    .iter()
+                    .filter(|(_, id)| (**id & 0x00ff_ffff) / 64 == word as u32)
+                    .map(|(px, id)| (*id, *px))
+                    .collect();
+                victims.sort();
+                match keep {
+                    1 if !victims.is_empty() => {
+                        victims.remove(0);
+                    }
+                    2 => {
+                        victims.pop();
+                    }
+                    _ => {}
+                }
+                self.cnt(match keep {
+                    1 => "block:id-block-remove-keep-lowest",
+                    2 => "block:id-block-remove-keep-highest",
+                    _ => "block:id-block-remove-all",
+                });
+                for (_, px) in victims {
+                    let keys: Vec<(u8, u8)> = self.shadow[fi].get(&px).map(|v| v.iter().map(|s| (s.peer, s.rpid)).collect()).unwrap_or_default();
+                    for (peer, rpid) in keys {
+                        if self.stopped() {
+                            break;
+                        }
+                        if self.peers[peer as usize].sess.is_some() {
+                            self.t_remove(peer, fi, px, rpid);
+                        }
+                    }
+                }
+            }
             Op::GrTimer { peer } => {
                 self.peers[peer as usize].gr_timer = false;
                 self.gr_feed(peer, GrIn::Timer, true);
@@ -1346,9 +1489,30 @@ impl<'a> Run<'a> {
             Op::Up { peer, gr, llgr } => pv(peer) && gr < 4 && llgr < 4 && self.peers[peer as usize].sess.is_none(),
             Op::Down { peer, .. } => pv(peer) && self.peers[peer as usize].sess.is_some(),
             Op::Insert { peer, fam, pfx, pid, attr, nh, .. } => {
-                pv(peer) && fv(fam) && (pfx as usize) < self.npfx && pid < 3 && (attr as usize) < self.env.attrs.len() && nh < 2 && self.peers[peer as usize].sess.is_some()
+                pv(peer)
+                    && fv(fam)
+                    && (pfx as usize) < self.npfx[fam as usize]
+                    && pid < 3
+                    && (attr as usize) < self.env.attrs.len()
+                    && nh < 2
+                    && self.peers[peer as usize].sess.is_some()
             }
-            Op::Remove { peer, fam, pfx, pid } => pv(peer) && fv(fam) && (pfx as usize) < self.npfx && pid < 3 && self.peers[peer as usize].sess.is_some(),
+            Op::Remove { peer, fam, pfx, pid } => pv(peer) && fv(fam) && (pfx as usize) < self.npfx[fam as usize] && pid < 3 && self.peers[peer as usize].sess.is_some(),
+            Op::BlockInsert { peer, fam, lo, n, attr, nh, .. } => {
+                pv(peer)
+                    && fv(fam)
+                    && n >= 1
+                    && (lo as usize + n as usize) <= self.npfx[fam as usize]
+                    && (attr as usize) < self.env.attrs.len()
+                    && nh < 2
+                    && self.peers[peer as usize].sess.is_some()
+            }
+            Op::BlockRemove { peer, fam, lo, n } => {
+                pv(peer) && fv(fam) && n >= 1 && (lo as usize + n as usize) <= self.npfx[fam as usize] && self.peers[peer as usize].sess.is_some()
+            }
+            Op::IdBlockRemove { fam, word, keep } => {
+                fv(fam) && keep < 3 && self.known_id[fam as usize].values().any(|id| (id & 0x00ff_ffff) / 64 == word as u32)
+            }
             Op::GrTimer { peer } => pv(peer) && self.peers[peer as usize].gr_timer,
             Op::LlgrTimer { peer, fam } => pv(peer) && fv(fam) && self.peers[peer as usize].llgr_timers.contains(&(fam as usize)),
             Op::Eor { peer, fam } => pv(peer) && fv(fam) && self.peers[peer as usize].sess.is_some(),
@@ -1363,7 +1527,7 @@ impl<'a> Run<'a> {
 
     fn gen_op(&self, rng: &mut Rng) -> Op {
         for _ in 0..64 {
-            let op = self.gen_candidate(rng);
+            let op = if self.mode == 1 && rng.chance(2, 5) { self.gen_block_candidate(rng) } else { self.gen_candidate(rng) };
             if self.applicable(&op) {
                 return op;
             }
@@ -1371,6 +1535,28 @@ impl<'a> Run<'a> {
         // always applicable fallback
         let nh = rng.below(2) as u8;
         Op::NhFlip { nh, reachable: self.invalid.contains(&self.env.nhs[nh as usize].addr()) }
+    }
+
+    /// allocator shape: operations on whole blocks of prefixes / of destination ids in the large family
+    fn gen_block_candidate(&self, rng: &mut Rng) -> Op {
+        let fam: u8 = if self.npfx[0] >= self.npfx[1] { 0 } else { 1 };
+        let np = self.npfx[fam as usize] as u64;
+        let up: Vec<u8> = (0..NPEER as u8).filter(|p| self.peers[*p as usize].sess.is_some()).collect();
+        let peer = if up.is_empty() { 0 } else { *rng.pick(&up) };
+        let n = *rng.pick(&[1u64, 3, 8, 30, 63, 64, 65, 66, 70, 100, 128, 130, 150]);
+        let n = n.min(np);
+        let lo = if rng.bool() { (rng.below(np / 32 + 1) * 32).min(np - n) } else { rng.below(np - n + 1) };
+        let k = rng.below(100);
+        if k < 45 {
+            Op::BlockInsert { peer, fam, lo: lo as Px, n: n as Px, attr: *rng.pick(&[0u8, 1, 1, 2]), nh: rng.below(2) as u8, filtered: rng.chance(1, 12) }
+        } else if k < 60 {
+            Op::BlockRemove { peer, fam, lo: lo as Px, n: n as Px }
+        } else {
+            let words: BTreeSet<u32> = self.known_id[fam as usize].values().map(|id| (id & 0x00ff_ffff) / 64).collect();
+            let words: Vec<u32> = words.into_iter().collect();
+            let word = if words.is_empty() { 0 } else { *rng.pick(&words) };
+            Op::IdBlockRemove { fam, word: word as u8, keep: *rng.pick(&[0u8, 0, 0, 1, 2]) }
+        }
     }
 
     fn gen_candidate(&self, rng: &mut Rng) -> Op {
@@ -1415,11 +1601,13 @@ impl<'a> Run<'a> {
         let k = rng.below(100);
         if k < 50 {
             // prefer existing keys half of the time so that replaces are frequent
-            let mut pfx = rng.below(self.npfx as u64) as u8;
+            // in a large universe half of the single updates stay on the first six prefixes
+            let span = if self.npfx[fam as usize] > 6 && rng.bool() { 6 } else { self.npfx[fam as usize] };
+            let mut pfx = rng.below(span as u64) as Px;
             let mut pid = *rng.pick(&[0u8, 0, 0, 1, 1, 2]);
             if rng.chance(1, 3) {
                 // re-announce a key this peer already has (possibly written by its previous session)
-                let keys: Vec<(u8, u8)> = self.shadow[fam as usize]
+                let keys: Vec<(Px, u8)> = self.shadow[fam as usize]
                     .iter()
                     .flat_map(|(px, v)| v.iter().filter(|s| s.peer == peer).map(move |s| (*px, s.rpid)))
                     .collect();
@@ -1431,12 +1619,12 @@ impl<'a> Run<'a> {
             Op::Insert { peer, fam, pfx, pid, attr, fresh: rng.chance(1, 4), nh: rng.below(2) as u8, filtered: rng.chance(1, 5) }
         } else if k < 62 {
             // withdraw something that exists, if anything
-            let keys: Vec<(u8, u8)> = self.shadow[fam as usize]
+            let keys: Vec<(Px, u8)> = self.shadow[fam as usize]
                 .iter()
                 .flat_map(|(px, v)| v.iter().filter(|s| s.peer == peer).map(move |s| (*px, s.rpid)))
                 .collect();
             if keys.is_empty() || rng.chance(1, 8) {
-                Op::Remove { peer, fam, pfx: rng.below(self.npfx as u64) as u8, pid: rng.below(3) as u8 }
+                Op::Remove { peer, fam, pfx: rng.below(self.npfx[fam as usize] as u64) as Px, pid: rng.below(3) as u8 }
             } else {
                 let (pfx, pid) = *rng.pick(&keys);
                 Op::Remove { peer, fam, pfx, pid }
@@ -1464,18 +1652,42 @@ impl<'a> Run<'a> {
 
 #[derive(Clone)]
 struct History {
-    npfx: usize,
+    npfx: [usize; 2],
+    mode: u8,
     shard: u32,
     ops: Vec<Op>,
 }
 
 impl History {
     fn enc(&self) -> String {
-        format!("n{};s{};{}", self.npfx, self.shard, self.ops.iter().map(|o| o.enc()).collect::<Vec<_>>().join(";"))
+        format!(
+            "n{}.{};m{};s{};{}",
+            self.npfx[0],
+            self.npfx[1],
+            self.mode,
+            self.shard,
+            self.ops.iter().map(|o| o.enc()).collect::<Vec<_>>().join(";")
+        )
     }
     fn dec(s: &str) -> Option<History> {
-        let mut it = s.split(';');
-        let npfx: usize = it.next()?.strip_prefix('n')?.parse().ok()?;
+        let mut it = s.split(';').peekable();
+        // "n5" (both families, old form) or "n300.6"
+        let n = it.next()?.strip_prefix('n')?;
+        let npfx: [usize; 2] = match n.split_once('.') {
+            Some((a, b)) => [a.parse().ok()?, b.parse().ok()?],
+            None => {
+                let v: usize = n.parse().ok()?;
+                [v, v]
+            }
+        };
+        if npfx[0] > MAX_PFX || npfx[1] > MAX_PFX {
+            return None;
+        }
+        let mut mode = 0u8;
+        if let Some(m) = it.peek().and_then(|w| w.strip_prefix('m')) {
+            mode = m.parse().ok()?;
+            it.next();
+        }
         let shard: u32 = it.next()?.strip_prefix('s')?.parse().ok()?;
         let mut ops = Vec::new();
         for w in it {
@@ -1483,12 +1695,12 @@ impl History {
                 ops.push(Op::dec(w)?);
             }
         }
-        Some(History { npfx, shard, ops })
+        Some(History { npfx, mode, shard, ops })
     }
 }
 
 fn replay<'a>(env: &'a Env, h: &History, trace: bool) -> Run<'a> {
-    let mut r = Run::new(env, h.npfx, h.shard, trace);
+    let mut r = Run::new(env, h.npfx, h.mode, h.shard, trace);
     for op in &h.ops {
         if r.stopped() {
             break;
@@ -1551,6 +1763,18 @@ fn shrink(env: &Env, h: &History, sig: &str, max_runs: usize) -> History {
                 }
                 v
             }
+            Op::BlockInsert { peer, fam, lo, n, attr, nh, filtered } => {
+                let mut v = Vec::new();
+                for m in [n / 2, 65, 64, n.saturating_sub(1)] {
+                    if m >= 1 && m < n {
+                        v.push(Op::BlockInsert { peer, fam, lo, n: m, attr, nh, filtered });
+                    }
+                }
+                if filtered {
+                    v.push(Op::BlockInsert { peer, fam, lo, n, attr, nh, filtered: false });
+                }
+                v
+            }
             Op::Up { peer, gr, llgr } => {
                 let mut v = Vec::new();
                 if llgr != 0 {
@@ -1575,33 +1799,51 @@ fn shrink(env: &Env, h: &History, sig: &str, max_runs: usize) -> History {
             }
         }
     }
-    if cur.npfx > 1 {
-        let need = cur
-            .ops
-            .iter()
-            .filter_map(|o| match o {
-                Op::Insert { pfx, .. } | Op::Remove { pfx, .. } => Some(*pfx as usize + 1),
-                _ => None,
-            })
-            .max()
-            .unwrap_or(1);
+    {
+        let mut need = [1usize; 2];
+        for o in &cur.ops {
+            match o {
+                Op::Insert { fam, pfx, .. } | Op::Remove { fam, pfx, .. } => {
+                    let f = *fam as usize & 1;
+                    need[f] = need[f].max(*pfx as usize + 1);
+                }
+                Op::BlockInsert { fam, lo, n, .. } | Op::BlockRemove { fam, lo, n, .. } => {
+                    let f = *fam as usize & 1;
+                    need[f] = need[f].max(*lo as usize + *n as usize);
+                }
+                _ => {}
+            }
+        }
         let mut cand = cur.clone();
-        cand.npfx = need;
-        if fails_with(env, &cand, sig) {
+        cand.npfx = [need[0].min(cur.npfx[0]), need[1].min(cur.npfx[1])];
+        if cand.npfx != cur.npfx && fails_with(env, &cand, sig) {
             cur = cand;
         }
     }
     cur
 }
 
+/// block operations make thousands of calls: keep the head and the tail of a long trace
+fn cap_trace(t: Vec<String>) -> Vec<String> {
+    if t.len() <= 400 {
+        return t;
+    }
+    let mut out: Vec<String> = t[..120].to_vec();
+    out.push(format!("  ... {} lines omitted (replay the history for the full trace) ...", t.len() - 360));
+    out.extend_from_slice(&t[t.len() - 240..]);
+    out
+}
+
 fn witness(env: &Env, h: &History, sig: &str, original_len: usize) -> Json {
     let r = replay(env, h, true);
     let mut kv: Vec<(String, Json)> = vec![
         ("history".into(), Json::s(h.enc())),
-        ("prefixes".into(), Json::Int(h.npfx as i128)),
+        ("prefixes_v4".into(), Json::Int(h.npfx[0] as i128)),
+        ("prefixes_v6".into(), Json::Int(h.npfx[1] as i128)),
         ("shard_idx".into(), Json::Int(h.shard as i128)),
         ("ops_before_shrinking".into(), Json::Int(original_len as i128)),
-        ("trace".into(), Json::strs(r.trace.clone().unwrap_or_default())),
+        ("ops".into(), Json::strs(h.ops.iter().map(|o| o.describe()))),
+        ("trace".into(), Json::strs(cap_trace(r.trace.clone().unwrap_or_default()))),
     ];
     if let Some(f) = &r.fail {
         kv.push(("failing_call".into(), Json::s(f.kind.clone())));
@@ -1634,6 +1876,7 @@ fn merge_run(rep: &mut Report, r: &Run) {
     rep.count_n("consumer:addpath-resend-on-replaced_path_id", f.ap_resend_replaced);
     rep.count_n("consumer:addpath-withdraw-at-topN-boundary", f.ap_boundary_withdraw);
     rep.count_n("consumer:addpath-already-sent-kept", f.ap_already_sent_kept);
+    rep.max("live-destinations-in-one-rib", r.max_live);
 }
 
 fn report_failure(rep: &mut Report, env: &Env, h: &History, r: &Run, shrink_runs: usize) {
@@ -1663,7 +1906,7 @@ fn extract_history(text: &str) -> Option<String> {
 
 fn main() {
     let params = Params::from_args_env();
-    let rule = "case = one Table call (step) of one history, judged against collect_loc_rib_paths[_limited]; non-trivial = the call returned at least one NlriChange or was an insert suppressed by deferral; distinct by hash of (universe size, shard index, applied op list up to the step, call kind)";
+    let rule = "case = one Table call (step) of one history (small universe, or allocator shape: 200-400 prefixes with block operations), judged against collect_loc_rib_paths[_limited]; non-trivial = the call returned at least one NlriChange or was an insert suppressed by deferral; distinct by hash of (universe sizes, mode, shard index, applied op list up to the step, call kind)";
     let mut rep = Report::new("C06", &params);
     rep.extra("rule", Json::s(rule));
     let env = Env::new();
@@ -1697,69 +1940,101 @@ fn main() {
 
     // `salt` lets run-plan entries that get the same shard seeds (debug / release) generate different histories
     let mut rng = Rng::new(params.seed ^ 0xC06 ^ (params.get_u64("salt", 0) << 32));
-    let histories = params.n(1300, 20_000);
-    let len = params.get_u64("len", if params.thorough() { 80 } else { 40 }) as usize;
-    // shrinking is bounded by a number of re-executions; none under Miri (one Table call costs ~1 s there,
-    // and the native shards find and shrink the same signatures)
-    let shrink_runs = if params.scale < 0.1 { 0 } else { 4000 };
+    // part=hist: small-universe histories; part=alloc: allocator shape (large universe, block operations); all: both
+    let part = params.get("part").unwrap_or("all").to_string();
+    let miri = params.scale < 0.1;
     let mut done = 0u64;
-    for hno in 0..histories {
-        if !rep.in_budget() {
-            break;
+    for mode in 0..2u8 {
+        if (mode == 0 && part == "alloc") || (mode == 1 && part == "hist") {
+            continue;
         }
-        let mut hr = rng.fork();
-        let npfx = 4 + hr.usize(3);
-        let shard = *hr.pick(&[0u32, 0, 1, 254]);
-        let mut run = Run::new(&env, npfx, shard, false);
-        let mut ops: Vec<Op> = Vec::new();
-        // restarting-speaker start-up: deferral is set before anything else happens
-        if hr.chance(1, 4) {
+        let histories = if mode == 0 { params.n(1300, 20_000) } else { params.n(30, 300) };
+        let len = params.get_u64("len", if mode == 1 { 60 } else if params.thorough() { 80 } else { 40 }) as usize;
+        // shrinking is bounded by a number of re-executions; none under Miri (one Table call costs ~1 s there,
+        // and the native shards find and shrink the same signatures); an allocator history costs ~1000 calls
+        let shrink_runs = if miri { 0 } else if mode == 1 { 250 } else { 4000 };
+        for hno in 0..histories {
+            if !rep.in_budget() {
+                break;
+            }
+            let mut hr = rng.fork();
+            let npfx = if mode == 0 {
+                let n = 4 + hr.usize(3);
+                [n, n]
+            } else {
+                // 200..400 prefixes in one family (ids spill over 4-7 bitmap words), six in the other
+                let big = if miri { 70 + hr.usize(10) } else { 200 + hr.usize(201) };
+                if hr.chance(3, 4) { [big, 6] } else { [6, big] }
+            };
+            let shard = *hr.pick(&[0u32, 0, 1, 254]);
+            let mut run = Run::new(&env, npfx, mode, shard, false);
+            let mut ops: Vec<Op> = Vec::new();
+            // restarting-speaker start-up: deferral is set before anything else happens
+            if hr.chance(1, 4) {
+                for fam in 0..2u8 {
+                    if hr.chance(2, 3) {
+                        let op = Op::StartDeferral { fam };
+                        run.apply(&op);
+                        ops.push(op);
+                    }
+                }
+            }
+            while ops.len() < len && !run.stopped() {
+                let op = run.gen_op(&mut hr);
+                run.apply(&op);
+                ops.push(op);
+            }
+            // close every deferral so that the end_deferral clause is judged for each one started
             for fam in 0..2u8 {
-                if hr.chance(2, 3) {
-                    let op = Op::StartDeferral { fam };
+                if run.deferring[fam as usize] && !run.stopped() {
+                    let op = Op::EndDeferral { fam };
                     run.apply(&op);
                     ops.push(op);
                 }
             }
-        }
-        while ops.len() < len && !run.stopped() {
-            let op = run.gen_op(&mut hr);
-            run.apply(&op);
-            ops.push(op);
-        }
-        // close every deferral so that the end_deferral clause is judged for each one started
-        for fam in 0..2u8 {
-            if run.deferring[fam as usize] && !run.stopped() {
-                let op = Op::EndDeferral { fam };
-                run.apply(&op);
-                ops.push(op);
+            done += 1;
+            rep.count(if mode == 0 { "histories" } else { "alloc-histories" });
+            if mode == 0 && run.registry.len() > 2 * NPEER {
+                rep.count("histories-with-restarted-session");
+            }
+            if mode == 1 {
+                if run.max_live > 64 {
+                    rep.count("alloc-histories-with-more-than-64-live-destinations");
+                }
+                if run.counters.get("alloc:whole-block-released-below-live-block").is_some() {
+                    rep.count("alloc-histories-with-whole-block-release-below-live-block");
+                }
+            }
+            merge_run(&mut rep, &run);
+            let h = History { npfx, mode, shard, ops };
+            if let Some(e) = &run.harness_error {
+                rep.inconclusive(&format!("harness: {} [history {}]", e, h.enc()));
+            }
+            if run.fail.is_some() {
+                report_failure(&mut rep, &env, &h, &run, shrink_runs);
+            }
+            if mode == 0 && rep.want_sample() && hno % 97 == 5 {
+                let r2 = replay(&env, &h, true);
+                rep.sample(Json::obj(vec![
+                    ("history", Json::s(h.enc())),
+                    ("table_calls", Json::Int(r2.steps as i128)),
+                    ("trace", Json::strs(cap_trace(r2.trace.clone().unwrap_or_default()))),
+                    ("verdict", Json::s(if r2.fail.is_some() { "violation" } else { "all clauses held after every call" })),
+                ]));
+            }
+            if mode == 1 && hno == 1 {
+                rep.sample(Json::obj(vec![
+                    ("history", Json::s(h.enc())),
+                    ("ops", Json::strs(h.ops.iter().map(|o| o.describe()))),
+                    ("table_calls", Json::Int(run.steps as i128)),
+                    ("max_live_destinations", Json::Int(run.max_live as i128)),
+                    ("verdict", Json::s(if run.fail.is_some() { "violation" } else { "all clauses held after every call" })),
+                ]));
             }
         }
-        done += 1;
-        rep.count("histories");
-        if run.registry.len() > 2 * NPEER {
-            rep.count("histories-with-restarted-session");
-        }
-        merge_run(&mut rep, &run);
-        let h = History { npfx, shard, ops };
-        if let Some(e) = &run.harness_error {
-            rep.inconclusive(&format!("harness: {} [history {}]", e, h.enc()));
-        }
-        if run.fail.is_some() {
-            report_failure(&mut rep, &env, &h, &run, shrink_runs);
-        }
-        if rep.want_sample() && hno % 97 == 5 {
-            let r2 = replay(&env, &h, true);
-            rep.sample(Json::obj(vec![
-                ("history", Json::s(h.enc())),
-                ("table_calls", Json::Int(r2.steps as i128)),
-                ("trace", Json::strs(r2.trace.clone().unwrap_or_default())),
-                ("verdict", Json::s(if r2.fail.is_some() { "violation" } else { "all clauses held after every call" })),
-            ]));
-        }
     }
-    if done < 20 && params.scale >= 1.0 {
-        rep.inconclusive("fewer than 20 histories executed");
+    if done < 10 && params.scale >= 1.0 {
+        rep.inconclusive("fewer than 10 histories executed");
     }
     std::process::exit(rep.finish());
 }
